@@ -378,6 +378,8 @@ pub struct Snap {
     pub len: usize,
     pub metrics: Option<MetricsSnap>,
     pub workers: (usize, usize),
+    /// popularity estimate of every program key (by index hash)
+    pub estimates: Vec<(u64, i64)>,
 }
 impl Snap {
     /// is entry logically alive (not past its deadline) at snapshot time
@@ -636,7 +638,7 @@ impl H {
         })
     }
     /// Facade snapshot; only called at quiescent points (it takes the locks it reads under).
-    pub fn snap(&self, clock: &Arc<Mutex<u64>>, quiescent: bool) -> Snap {
+    pub fn snap(&self, clock: &Arc<Mutex<u64>>, quiescent: bool, idxs: &[u64]) -> Snap {
         let at = tick(clock);
         let (entries, policy, buckets) = match self {
             H::S(x) => (x.verif_entries(), x.verif_policy(), x.verif_buckets()),
@@ -652,6 +654,7 @@ impl H {
             len: self.len(),
             metrics: self.metrics_snap(),
             workers: rt::thread::workers(),
+            estimates: idxs.iter().map(|i| (*i, self.estimate(*i))).collect(),
         }
     }
 }
